@@ -73,6 +73,10 @@ def run(tier, seed):
             if x["cyclic"]:
                 nontrivial.add("cyclic:" + json.dumps(x["graph"], sort_keys=True) + x["start"])
     behaviours += gb
+    # ---- macro invocations as steps: the protocol of spec/Runtime.tla on a spread of them (guard graphs excluded:
+    # ---- deep chains are refused at instantiation and never applied)
+    import rtlib
+    rtlib.check_harness(res, PROP, [b for b in behaviours if not str(b.get("id", "")).startswith("g")], 1500 if tier == "quick" else 10000)
     summary, mism = scriptlib.replay_scripts(PROP, behaviours, per_chunk_timeout=600)
     res.behaviours_replayed = summary["behaviours"] - len(mism)
     res.evaluations = summary["evaluations"]
